@@ -48,6 +48,7 @@ func main() {
 	flag.BoolVar(&cfg.TightAppend, "tight-append", false, "append grows to exactly the needed capacity")
 	flag.BoolVar(&cfg.DeadlockOK, "deadlock-ok", false, "a global deadlock ends the path without a violation")
 	flag.IntVar(&cfg.PreemptBound, "preempt", -1, "preemption bound (-1 = unbounded)")
+	flag.IntVar(&cfg.SpinLimit, "spin-limit", 0, "threads: report a livelock when a thread executes this many instructions without a visible operation (0 = off)")
 	flag.IntVar(&cfg.MaxSleeps, "max-sleeps", 6, "bound on time.Sleep calls per thread")
 	flag.IntVar(&cfg.Witnesses, "witnesses", 3, "completed paths per harness exported as native-replay witnesses")
 	flag.BoolVar(&cfg.Gen, "gen", false, "generate per-method harnesses from the method sets, then load again")
